@@ -101,6 +101,16 @@ func runC10(c *Ctx) {
 	L.Floor("draw-support", 20, "Intn and Perm sites of the randomised operations")
 	c.checkRandomFrame()
 	c.checkReplay()
+	// replay also needs the caller's inputs to be left as they were: a second call with the same
+	// seed must see the same counts map / alignment
+	c.purityObligations("input-unmodified", []purityTarget{
+		{"align", "*seqbag", "rarefySeqBag", []int{0, 2}},
+		{"align", "*align", "Rarefy", []int{0, 2}},
+		{"align", "*seqbag", "sampleSeqBag", []int{0}},
+		{"align", "*align", "BuildBootstrap", []int{0}},
+		{"align", "*align", "RandSubAlign", []int{0}},
+	})
+	L.Floor("input-unmodified", 7, "sampling operations and their count map")
 }
 
 // fromFloatConv: v is (partly) computed from a float-to-int conversion.
